@@ -619,5 +619,30 @@ def check_ttml(pid, tier, seed, scratch, replay):
     ))
 
 
+@register("C05")
+def check_stl(pid, tier, seed, scratch, replay):
+    return codec_check(pid, tier, seed, scratch, dict(
+        name="stl", gen_module="GenStl", gen_cfg="GenStl.cfg", drive_cmd="stl", trace_module="TraceStl", trace_cfg="TraceStl.cfg",
+        mc=[("StlMC", "MC_Stl_K.cfg", None), ("StlMC", "MC_Stl_T.cfg", None), ("StlMC", "MC_Stl_R.cfg", None), ("StlMC", "MC_Stl_X.cfg", None), ("StlMC", "MC_Stl_M.cfg", None)],
+        gens=[(dict(GEN_FAM="K"), 2, 2, None), (dict(GEN_FAM="T"), 2, 2, None), (dict(GEN_FAM="R"), 2, 2, None), (dict(GEN_FAM="X"), 1, 1, None), (dict(GEN_FAM="M"), 1, 1, None)],
+        nrand=(0, 0), per_jvm=1200,
+        rule=("TLC enumerates (truth, file) pairs of five families - K: the complete Latin code table, one file per printable "
+              "code and per diacritic x letter pair (13 x 52, composable or not; table generated from the standard by "
+              "tools/gen_stl_tables.py, NFC via unicodedata); T: every frame number x selected h:m:s x 25/30 fps x programme-start "
+              "offsets; R: rows / runs / italic-underline-boxing code sequences, justification codes, vertical positions; X: teletext "
+              "display standards 1 and 2 with boxed rows, colour and double-height codes; M: GSI metadata subsets, both frame rates, "
+              "reserved user-data blocks interleaved. Each file is packed by the harness (fixed-offset GSI/TTI packer), read by "
+              "ReadFromSTL with and without the ignore-programme-start option; each truth is written by WriteToSTL with STL metadata, "
+              "without metadata and with metadata inherited from another format, unpacked by the harness, decoded by the TLA+ "
+              "reference decoder, re-read and re-written (timecodes unchanged). Non-trivial = distinct (truth, file, option/mode)."),
+        assumptions=["instants may differ by one nanosecond (frame starts at 30 fps are not whole nanoseconds)",
+                     "a teletext row without any start-box code is displayed as a whole (DESIGN.md 9); explicitly-off and never-set flags denote the same when written",
+                     "text fits a TTI block (<=112 codes); run texts carry no leading/trailing spaces; the STL writer is not asked to carry teletext colours / double height",
+                     "the reference decoder is model-checked against every generated file in the same run (StlMC)"],
+        nontrivial=lambda ev: True,
+        key=lambda ev: [ev["dir"], ev.get("ignore"), ev.get("mode"), ev["g"], ev["d"]],
+    ))
+
+
 def selftest(pid, tier, seed, scratch, replay):
     raise Infra("selftest not implemented yet")
